@@ -6,7 +6,7 @@ import z3
 from ..common import core
 from ..common.core import Obligation, Cover
 from .values import *
-from .interp import Engine, qualname, func_ast, Path
+from .interp import Engine, qualname, func_ast, Path, PathCut
 from . import models
 
 _LOADED = {}
@@ -54,21 +54,28 @@ def run_paths(E, setup, invoke):
             out = ("return", v)
         except PyRaise as e:
             out = ("raise", e.exc)
+        except PathCut:
+            out = ("cut", None)
         return (ctx, out)
     res = []
     for p in E.explore(runp):
+        if p.outcome[0] == "cut":
+            res.append((p, None, ("cut", None)))
+            continue
         ctx, out = p.outcome[1]
         res.append((p, ctx, out))
     return res
 
 
-def path_obligations(run, prop, func, p, case=""):
-    """Obligations raised inside a path via E.require (callee pre-conditions etc.)."""
+def path_obligations(run, prop, func, p, case="", tag=None):
+    """Obligations raised inside a path via E.require (callee pre-conditions, loop invariants etc.)."""
     out = []
     fn = qualname(func) if not isinstance(func, str) else func
     for (clause, pc, goal, meta) in p.obls:
+        t = dict(tag or {})
+        t.update(meta)
         out.append(Obligation(prop, fn, clause, pc, goal, kind=meta.get("kind", "pre"), case=case,
-                              where=meta.get("where", ""), tag=meta))
+                              where=meta.get("where", "") or (where(func) if not isinstance(func, str) else ""), tag=t))
     return out
 
 
